@@ -214,6 +214,15 @@ func (w *worker) kill() {
 		return
 	}
 	w.in.Close()
+	if os.Getenv("GOCOVERDIR") != "" { // coverage measurement: let the worker return from main so its counters are written
+		done := make(chan struct{})
+		go func() { _ = w.cmd.Wait(); close(done) }()
+		select {
+		case <-done:
+			return
+		case <-time.After(3 * time.Second):
+		}
+	}
 	_ = w.cmd.Process.Kill()
 	_ = w.cmd.Wait()
 }
